@@ -82,9 +82,8 @@ def rebin(x, d, sample=False):
         sliceobj1 = [slice(None)]*len(d0)
         sliceobj = [slice(None)]*len(d)
         if d[k] > d0[k]:
-            f = d0[k]/d[k]
             for i in range(d[k]):
-                p = f*i
+                p = d0[k]*i/d[k]
                 fp = int(floor(p))
                 sliceobj0[k] = slice(fp, fp + 1)
                 sliceobj[k] = slice(i, i + 1)
